@@ -204,6 +204,11 @@ def generate(rng, tier):
                         "s": rng.randrange(1 << 30), "i": i})
         t += rng.choice([0.0, 0.0001, 0.001, 0.01, 0.1, 0.4, 1.0]) * rng.random()
     t_end_stream = t + 0.2
+    if rng.random() < 0.3:
+        # the victim's process is descheduled while the stream arrives: the datagrams reach it in one burst afterwards
+        for _ in range(rng.choice([1, 2])):
+            ops.append({"t": round(t_stream0 + rng.random() * (t_end_stream - t_stream0), 6), "op": "stall", "h": "V",
+                        "dur": rng.choice([0.01, 0.1, 0.45, 1.0])})
     ops.append({"t": round(t_end_stream, 6), "op": "faults_off"})
     tc = t_end_stream + 1.5
     ops.append({"t": round(tc, 6), "op": "send", "p": "C", "src_port": 5355,
@@ -339,7 +344,9 @@ def execute(scenario, seed, overrides=None):
             out.add("C15.oversize-processed", f"a datagram longer than 8966 bytes was processed: browser saw {over[:2]}")
         for lk in drv.lookups:
             e = lk["entry"]
-            if e["t_done"] is None or e["t_done"] - e["t_call"] > lk["timeout"] / 1000.0 + 0.002:
+            # time during which the process was descheduled does not count against the library
+            stalled = sum(max(0.0, min(b, e["t_done"] or b) - max(a, e["t_call"])) for a, b, hn in drv.stalls if hn == "V")
+            if e["t_done"] is None or e["t_done"] - e["t_call"] > lk["timeout"] / 1000.0 + 0.002 + stalled:
                 out.add("C15.lookup-overrun", f"lookup with timeout {lk['timeout']} ms returned after "
                         f"{None if e['t_done'] is None else e['t_done'] - e['t_call']}")
         out.digest = w.digest()
